@@ -1374,6 +1374,13 @@ class Data(BaseCartesianData):
         except ValueError:
             pass
 
+        if changed:
+            # Derived components that take ``old`` as an input have to follow
+            # the change, otherwise they can no longer be computed
+            for component in self._components.values():
+                if isinstance(component, DerivedComponent):
+                    component.link.replace_ids(old, new)
+
         if changed and self.hub is not None:
 
             # remove old component and broadcast the change
